@@ -128,21 +128,39 @@ def blockValid (P : Params) (L : Ledger) (b : Block) : Bool :=
 
 def poolIns (pool : List Tx) : List (Nat × Nat) := pool.flatMap (·.ins)
 
-/-- `appendToTxPool` -/
-def poolAccepts (P : Params) (L : Ledger) (th : Nat) (pool : List Tx) (tx : Tx) : Bool :=
-  !(pool.any fun t => t.id == tx.id) && tx.kind != .coinbase && txSane tx && txValid P L th tx &&
-  tx.ins.all fun p => !(poolIns pool).contains p
+/-- a side-chain mining proof in the original format (SideChainPow with inputs): the harness passes it as
+    an ordinary spending transaction that carries `[SideBlockHash, SideGenesisHash]` -/
+def isSidePow (tx : Tx) : Bool := tx.kind == .other && tx.phashes.length == 2
+def sideGenesis (tx : Tx) : Nat := tx.phashes.getD 1 0
+
+/-- `replaceDuplicateSideChainPowTx`: a new proof evicts the pool's proofs for the same side chain -/
+def poolReplace (pool : List Tx) (tx : Tx) : List Tx :=
+  if isSidePow tx then pool.filter fun t => !(isSidePow t && sideGenesis t == sideGenesis tx) else pool
+
+/-- `appendToTxPool` up to the pool lookup: duplicate, coinbase, sanity and context checks -/
+def poolPre (P : Params) (L : Ledger) (th : Nat) (pool : List Tx) (tx : Tx) : Bool :=
+  !(pool.any fun t => t.id == tx.id) && tx.kind != .coinbase && txSane tx && txValid P L th tx
+
+/-- `appendToTxPool`: the checks, then `verifyTransactionWithTxnPool` (eviction of duplicate side-chain
+    proofs — which happens even when the transaction is then refused — and the input-conflict lookup
+    `VerifyTx`, for every transaction type) -/
+def poolAdd (P : Params) (L : Ledger) (th : Nat) (pool : List Tx) (tx : Tx) : List Tx × Bool :=
+  if poolPre P L th pool tx then
+    if tx.ins.all fun p => !(poolIns (poolReplace pool tx)).contains p then (poolReplace pool tx ++ [tx], true)
+    else (poolReplace pool tx, false)
+  else (pool, false)
 
 /-- ETBlockConnected: drop the block's transactions and everything that spends what they spend -/
 def poolOnConnect (pool : List Tx) (b : Block) : List Tx :=
   pool.filter fun t => !(b.txs.any fun bt => bt.id == t.id) &&
     t.ins.all fun p => !(blockIns b).contains p
 
-/-- ETBlockDisconnected: the block's transactions go back when they are acceptable -/
+/-- ETBlockDisconnected: the block's transactions go back when they are acceptable; when one is not,
+    `RemoveTransaction` drops what depends on it -/
 def poolOnDisconnect (P : Params) (L : Ledger) (th : Nat) (pool : List Tx) (b : Block) : List Tx :=
   (b.txs.drop 1).foldl (fun pool tx =>
-    if poolAccepts P L th pool tx then pool ++ [tx]
-    else pool.filter fun t => !(t.ins.any fun p => p.1 == tx.id)) pool
+    if (poolAdd P L th pool tx).2 then (poolAdd P L th pool tx).1
+    else (poolAdd P L th pool tx).1.filter fun t => !(t.ins.any fun p => p.1 == tx.id)) pool
 
 /-- ETBlockProcessed: `checkAndCleanAllTransactions` -/
 def poolClean (P : Params) (L : Ledger) (th : Nat) (pool : List Tx) : List Tx :=
@@ -301,7 +319,7 @@ def processBlock (s : NState) (b : Block) : NState × Reply :=
 
 /-- `TxPool.AppendToTxPool` -/
 def submit (s : NState) (tx : Tx) : NState × Bool :=
-  if poolAccepts s.P s.ledger s.tip.height s.pool tx then ({ s with pool := s.pool ++ [tx] }, true) else (s, false)
+  ({ s with pool := (poolAdd s.P s.ledger s.tip.height s.pool tx).1 }, (poolAdd s.P s.ledger s.tip.height s.pool tx).2)
 
 def initState (P : Params) (g : Block) : NState :=
   { P := P, genesis := g, known := [], orphans := [], active := [], gledger := applyBlock {} g, pool := [] }
